@@ -125,14 +125,21 @@ def run(res, a):
     for i in range(0, len(cases), shard):
         bodies.append("From Coq Require Import List Arith ZArith.\nFrom BM Require Import Front.Quantum Front.Cyclo8 Front.QuantumCheck.\nImport ListNotations.\n"
                       "Definition M := Eval vm_compute in %s.\n"
-                      % C.cq_list(["\nrun_circuit %d %s" % (n, coq_lines(ls)) for n, ls, _ in cases[i:i + shard]]))
-    model = []
-    for o in C.eval_cases_parallel("C14", bodies, timeout=3000):
+                      "Definition U := Eval vm_compute in (gate_table_unitary, %s).\n"
+                      % (C.cq_list(["\nrun_circuit %d %s" % (n, coq_lines(ls)) for n, ls, _ in cases[i:i + shard]]),
+                         C.cq_list(["\ncircuit_unitary_and_sim %d %s" % ((n, coq_lines(ls)) if n <= 4 else (1, "[(GH, [0])]")) for n, ls, _ in cases[i:i + shard]])))
+    model, exact = [], []
+    table_ok = True
+    for o in C.eval_cases_parallel("C14", bodies, names=("M", "U"), timeout=3000):
         model += o["M"]
+        table_ok = table_ok and o["U"][0]
+        exact += o["U"][1]
+    if not table_ok:
+        res.violation("C14 the gate table of the model (Front/QuantumCheck.v) is not unitary: the premise of every_emitted_matrix_is_unitary fails", {"obligation": "gate_table_unitary"}, nofail=True)
     known = {k["key"] for k in C.known_findings("C14")}
     viol, mism = [], []
     hist = {"safe": 0, "unsafe": 0, "unsafe_wrong_or_panic": 0, "panics": 0, "layers": 0, "by_qubits": {}}
-    for (n, ls, style), g, m in zip(cases, out, model):
+    for (n, ls, style), g, m, ex in zip(cases, out, model, exact):
         wf, safe, ok, tables, prod_is_ref, layers_are_par = m
         meta = {"n": n, "lines": ls, "style": style}
         res.count_case(meta, nontrivial=len(ls) >= 2)
@@ -192,11 +199,14 @@ def run(res, a):
                 viol.append((wrong, meta))
         elif ok and safe and not (prod_is_ref and layers_are_par):
             mism.append(("the model's own product differs from its reference on a circuit satisfying circuit_safe", meta))
+        elif ok and wf and not (ex[0] and ex[1]):
+            mism.append(("the model's matrices are not exactly unitary / its simulated basis states are not the reference columns (%s)" % (ex,), meta))
     cov = res.coverage
     cov["rule"] = ("random circuits over {h,x,y,z,s,t,sx,cx,cz,swap,iswap,dcnot,rx,ry,rz,p,r} on 1-4 (quick) / 1-5 qubits, 1-7 lines, three styles: arbitrary "
                    "distinct arguments, at most one two-qubit gate per layer, two-qubit gates on neighbours in either order; rotation angles k*pi/2, "
                    "phases k*pi/4; compared: every emitted matrix entry with the exact model entry, unitarity of every emitted matrix, product of "
-                   "emitted matrices and every software-simulated basis state with the reference unitary")
+                   "emitted matrices and every software-simulated basis state with the reference unitary; in Coq, exactly: the gate table is unitary, every matrix of "
+                   "the model's compilation is unitary and the model's simulated basis states are the reference columns (circuits of up to 4 qubits)")
     cov["input_distribution"] = hist
     cov["traces_validated_against_impl"] = len(cases) - len(mism)
     cov["samples"] = [{"n": cases[0][0], "lines": go_lines(cases[0][1])}]
